@@ -52,6 +52,8 @@ def b2b_random_jobs(quick):
     J.append(Job("B", lambda: B2BInst("Burst2Beat/aw32/any", aw=32, caps=ALL, id_width=4), cycles=cyc, runs=runs))
     J.append(Job("B", lambda: B2BInst("Burst2Beat/aw16/fixed+incr/legal", aw=16, caps=(FIXED, INCR), legal_only=True),
                  cycles=cyc // 2, runs=runs))
+    J.append(Job("B", lambda: B2BInst("Burst2Beat/aw13/fixed+wrap/legal", aw=13, caps=(FIXED, WRAP), legal_only=True,
+                                      id_width=1), cycles=cyc // 2, runs=runs))
     J.append(Job("B", lambda: B2BInst("Burst2Beat/aw32/open-loop", aw=32, caps=ALL, hold=False, id_width=4),
                  cycles=cyc // 2, runs=runs))
     J.append(Job("B", lambda: B2BInst("Burst2Beat/aw32/axi3-ports/any", aw=32, caps=ALL, id_width=4, version="axi3"),
@@ -115,9 +117,11 @@ def e2e_by_name(name):
 
 
 def conv_jobs(quick):
-    J = [Job("C", lambda kind=kind, a=a, b=b, o=o: ConvArith(kind, a, b, **o)) for (kind, a, b, o) in CONVS]
+    J = [Job("C", lambda kind=kind, a=a, b=b, o=o: ConvArith(kind, a, b, **o),
+             label=c10lib.conv_name(kind, a, b, o.get("aw_to"), o.get("via", "direct")) + "/ax") for (kind, a, b, o) in CONVS]
     for (kind, a, b, o) in E2E + (() if quick else E2E_THOROUGH):
-        J.append(Job("E", lambda kind=kind, a=a, b=b, o=o: ConvE2E(kind, a, b, **o)))
+        J.append(Job("E", lambda kind=kind, a=a, b=b, o=o: ConvE2E(kind, a, b, **o),
+                     label=c10lib.conv_name(kind, a, b, None, o.get("via", "direct")) + "/end-to-end"))
     return J
 
 
@@ -238,8 +242,20 @@ def correspond(ctx):
         "Lean axiSpecAddr/Legal/burstBytes (the definitions the theorems are stated against) on every run",
         "data-channel model shared with C03 (LitexModel/Stream/Conv.lean: upConv/downConv)",
     ]
-    dis = constants_check(ctx) + run_corpus(ctx)
-    dis += list(run_jobs(ctx, ctx.jobs)) + spec_crosscheck(ctx)
+    dis = []
+    for part in (constants_check, run_corpus, lambda c: list(run_jobs(c, c.jobs)), spec_crosscheck):
+        try:
+            dis += part(ctx)
+        except Exception as e:       # a changed implementation that cannot even be built/driven: report, go on
+            import traceback
+            dis.append({"instance": getattr(part, "__name__", "jobs"), "kind": "exception", "error": repr(e),
+                        "traceback": traceback.format_exc()[-1500:]})
+            try:
+                ctx.lean.quit()
+            except Exception:
+                pass
+            from leanproc import LeanDriver
+            ctx.lean = LeanDriver(ctx.prop)
     ctx.c10_all_dis = list(dis)
     ctx.cov.notes.append("mode A on AXIBurst2Beat uses a state-dependent alphabet: all requests of the box are offered "
                          "in the clean idle state, only beat.ready varies while the master holds a request; idle states "
@@ -323,7 +339,15 @@ def search(ctx, disagreements, proof_info):
         if getattr(d, "kind", "").startswith("monitor:"):
             return {"instance": d.inst_name, "trace": [list(l) for l in d.trace], "monitor": d.kind[8:],
                     "letter_format": FMT}
-    return generic_search(ctx, machine_dis, all_jobs, FMT, quick_s=40, thorough_s=300)
+    found = generic_search(ctx, machine_dis, all_jobs, FMT, quick_s=40, thorough_s=300)
+    if found:
+        return found
+    # 5. last resort: an instance of the property's parameter grid that can no longer be built or driven at all
+    for d in disagreements:
+        if isinstance(d, dict) and d.get("kind") == "exception" and "/" in str(d.get("instance", "")):
+            return {"instance": d["instance"], "exception": True,
+                    "monitor": "building/driving this instance of the unchanged parameter grid raised %s" % d.get("error")}
+    return None
 
 
 def probes(ctx):
@@ -352,9 +376,12 @@ def probes(ctx):
     got = ca.impl((0x100, 1, 2, INCR))
     want_b = burst_bytes(0x100, 1, 2, INCR)
     have_b = burst_bytes(*got)
-    out.append(("C10-downconv-narrow-burst", have_b != want_b,
+    got1 = ca.impl((0xec, 0, 0, INCR), "ar")            # same region: single transfer narrower than the narrow bus
+    miss = 0xec not in burst_bytes(*got1)
+    out.append(("C10-downconv-narrow-burst", have_b != want_b or miss,
                 "AXIDownConverter 64->32: AW(0x100,len 1,size 2) forwarded as AW(0x%x,len %d,size %d,burst %d): %d bytes "
-                "instead of %d" % (got + (len(have_b), len(want_b)))))
+                "instead of %d; AR(0xec,len 0,size 0) forwarded as AR(0x%x,len %d,size %d,burst %d): byte 0xec %s" % (
+                    got + (len(have_b), len(want_b)) + got1 + ("never addressed" if miss else "addressed",))))
     # (3) AXIDownConverter 64 -> 32, FIXED burst with more than one beat is turned into an INCR burst
     got = ca.impl((0x100, 1, 3, FIXED))
     want_b = burst_bytes(0x100, 1, 3, FIXED)
@@ -366,9 +393,12 @@ def probes(ctx):
     got = ca.impl((0x0, 128, 3, INCR))
     want_n = (128 + 1) * 8
     have_n = len(burst_bytes(*got))
-    out.append(("C10-downconv-len-overflow", have_n != want_n,
+    gotw = ca.impl((0x1108, 15, 3, WRAP))               # same region: WRAP forwarded with an illegal length
+    badw = not legal(32, *gotw)
+    out.append(("C10-downconv-len-overflow", have_n != want_n or badw,
                 "AXIDownConverter 64->32: INCR AW(0x0,len 128,size 3) (%d bytes) forwarded as AW(0x%x,len %d,size %d,burst %d)"
-                " (%d bytes)" % ((want_n,) + got + (have_n,))))
+                " (%d bytes); WRAP AW(0x1108,len 15,size 3) forwarded as AW(0x%x,len %d,size %d,burst %d) (%s)" % (
+                    (want_n,) + got + (have_n,) + gotw + ("illegal WRAP length" if badw else "legal",))))
     return out
 
 
@@ -388,6 +418,18 @@ def replay(ctx, payload):
             print("instance %r not found" % name)
             return 2
         return verdict(e.run_history(fi.get("history") or [fi]), "burst")
+    if fi.get("exception"):
+        try:
+            inst = (conv_by_name(name) if name.endswith("/ax") else e2e_by_name(name))
+            if inst is None:
+                for j in jobs("thorough"):
+                    if j.label == name or j.label is None:
+                        i2 = j.make()
+                        if i2.name == name:
+                            break
+            return verdict(None, "instance")
+        except Exception as e:
+            return verdict("building %s raised %r" % (name, e), "instance")
     if fi.get("passthrough"):
         import random
         ca = conv_by_name(name)
